@@ -224,6 +224,57 @@ inductive Job where
 def abstractErr (nodes : List Selection) : Exn :=
   .multi [⟨[], nodeLocs nodes, true, "", [], "abstract"⟩]
 
+/-- state-threading map (children evaluated left to right) -/
+def mapSt {α β σ : Type} (f : α → σ → β × σ) : List α → σ → List β × σ
+  | [], s => ([], s)
+  | a :: as, s =>
+    let r := f a s
+    let rs := mapSt f as r.2
+    (r.1 :: rs.1, rs.2)
+
+/-- like `mapSt`, but the first raising element aborts the rest (`await` one by one, exception propagates) -/
+def serialSt {α σ : Type} (f : α → σ → (String × Res) × σ) : List α → σ → Except (List GErr) (List (String × PyVal)) × σ
+  | [], s => (.ok [], s)
+  | a :: as, s =>
+    match f a s with
+    | ((_, .error es), s1) => (.error es, s1)
+    | ((k, .ok v), s1) =>
+      match serialSt f as s1 with
+      | (.error es, s2) => (.error es, s2)
+      | (.ok kvs, s2) => (.ok ((k, v) :: kvs), s2)
+
+/-- `extract_exceptions_from_results`: every raised child is reported, otherwise all the values -/
+def gatherRes : List Res → Except (List GErr) (List PyVal)
+  | [] => .ok []
+  | r :: rs =>
+    match r, gatherRes rs with
+    | .ok v, .ok vs => .ok (v :: vs)
+    | .ok _, .error es => .error es
+    | .error es, .ok _ => .error es
+    | .error es, .error es' => .error (es ++ es')
+
+def gatherKV : List (String × Res) → Except (List GErr) (List (String × PyVal))
+  | [] => .ok []
+  | (k, r) :: rs =>
+    match r, gatherKV rs with
+    | .ok v, .ok vs => .ok ((k, v) :: vs)
+    | .ok _, .error es => .error es
+    | .error es, .ok _ => .error es
+    | .error es, .error es' => .error (es ++ es')
+
+def enumFrom {α : Type} : Nat → List α → List (Nat × α)
+  | _, [] => []
+  | i, a :: as => (i, a) :: enumFrom (i + 1) as
+
+abbrev FieldJob := String × List Selection × FieldDef
+
+/-- dictionary in the order of the collected fields -/
+def orderBy (defs : List FieldJob) (kvs : List (String × PyVal)) : List (String × PyVal) :=
+  defs.filterMap fun d => (lookupKV d.1 kvs).map fun v => (d.1, v)
+
+def fieldJobs (S : Schema) (tn : String) (collected : Collected) : List FieldJob :=
+  collected.filterMap fun kn => (findFieldDef S tn kn.2.head!.fname).map fun fd => (kn.1, kn.2, fd)
+
 def run : Nat → Ctx → Job → St → Except Exn PyVal × St
   | 0, _, _, st => (.error (.raw "fuel" false "" []), st)
   | n+1, ctx, job, st =>
@@ -238,15 +289,17 @@ def run : Nat → Ctx → Job → St → Except Exn PyVal × St
         match v with
         | .none => (.ok .none, st)
         | .list items =>
-          let step := fun (acc : (List Res × St) × Nat) (item : PyVal) =>
-            let p := path ++ [PathSeg.idx acc.2]
-            let r := catchField t.isNonNull nodes p (run n ctx (.complete t pt fname nodes p item) acc.1.2)
-            ((acc.1.1 ++ [r.1], r.2), acc.2 + 1)
-          let out := (items.foldl step ((([] : List Res), st), 0)).1
-          let raised := out.1.filterMap fun r => match r with | .error es => some es | .ok _ => none
-          if raised.isEmpty then
-            (.ok (.list (out.1.filterMap fun r => match r with | .ok x => some x | .error _ => none)), out.2)
-          else (.error (.multi raised.flatten), out.2)
+          let rs := mapSt (fun (ix : Nat × PyVal) st =>
+              -- `complete_value_catching_error`: an exception instance as item value is raised
+              match ix.2 with
+              | .exc t' m e => catchField t.isNonNull nodes (path ++ [PathSeg.idx ix.1]) (.error (.raw "resolver" t' m e), st)
+              | _ =>
+              catchField t.isNonNull nodes (path ++ [PathSeg.idx ix.1])
+                (run n ctx (.complete t pt fname nodes (path ++ [PathSeg.idx ix.1]) ix.2) st))
+            (enumFrom 0 items) st
+          match gatherRes rs.1 with
+          | .ok vs => (.ok (.list vs), rs.2)
+          | .error es => (.error (.multi es), rs.2)
         | _ => (.error (.raw "not-iterable" false "" []), st)
       | .named tn =>
         match v with
@@ -271,55 +324,30 @@ def run : Nat → Ctx → Job → St → Except Exn PyVal × St
         | _ => (.ok .none, st)
     | .fields tn parent path collected serial =>
       -- one field: resolve, complete, catch
-      let one := fun (st : St) (k : String) (nodes : List Selection) (fd : FieldDef) =>
-        let p := path ++ [PathSeg.key k]
-        match resolveValue (n+1) ctx tn fd parent nodes p st with
-        | (.error e, st1) => catchField fd.type.isNonNull nodes p (.error e, st1)
+      let one := fun (d : FieldJob) (st : St) =>
+        let p := path ++ [PathSeg.key d.1]
+        match resolveValue (n+1) ctx tn d.2.2 parent d.2.1 p st with
+        | (.error e, st1) => ((d.1, (catchField d.2.2.type.isNonNull d.2.1 p (.error e, st1)).1),
+                              (catchField d.2.2.type.isNonNull d.2.1 p (.error e, st1)).2)
         | (.ok v, st1) =>
-          catchField fd.type.isNonNull nodes p (run n ctx (.complete fd.type tn fd.name nodes p v) st1)
-      let defs : List (String × List Selection × FieldDef) := collected.filterMap fun kn =>
-        (findFieldDef ctx.S tn kn.2.head!.fname).map fun fd => (kn.1, kn.2, fd)
+          let r := catchField d.2.2.type.isNonNull d.2.1 p (run n ctx (.complete d.2.2.type tn d.2.2.name d.2.1 p v) st1)
+          ((d.1, r.1), r.2)
+      let defs := fieldJobs ctx.S tn collected
       if serial then
         -- execute_fields_serially: a raising field aborts the rest
-        let out := defs.foldl (fun (acc : Except (List GErr) (List (String × PyVal)) × St) d =>
-          match acc.1 with
-          | .error _ => acc
-          | .ok kvs =>
-            match one acc.2 d.1 d.2.1 d.2.2 with
-            | (.ok v, st') => (.ok (kvs ++ [(d.1, v)]), st')
-            | (.error es, st') => (.error es, st')) (.ok [], st)
-        match out with
+        match serialSt one defs st with
         | (.ok kvs, st') => (.ok (.dict kvs), st')
         | (.error es, st') => (.error (.multi es), st')
       else
-        -- execute_fields: non-concurrent fields are awaited inline (a raise propagates at once and the
-        -- deferred ones are never started), concurrent ones are gathered afterwards
-        let inl := defs.foldl (fun (acc : Option (List (String × Option Res)) × St × Option (List GErr)) d =>
-          match acc.2.2 with
-          | some _ => acc
-          | none =>
-            if d.2.2.parentConc then (acc.1.map (· ++ [(d.1, none)]), acc.2.1, none)
-            else
-              match one acc.2.1 d.1 d.2.1 d.2.2 with
-              | (.ok v, st') => (acc.1.map (· ++ [(d.1, some (.ok v))]), st', none)
-              | (.error es, st') => (acc.1, st', some es)) (some [], st, none)
-        match inl.2.2 with
-        | some es => (.error (.multi es), inl.2.1)
-        | none =>
-          let out := defs.foldl (fun (acc : List (String × Res) × St) d =>
-            if d.2.2.parentConc then
-              let r := one acc.2 d.1 d.2.1 d.2.2
-              (acc.1 ++ [(d.1, r.1)], r.2)
-            else acc) ([], inl.2.1)
-          -- results in field order: inline ones from `inl`, deferred ones from `out`
-          let results : List (String × Res) := (inl.1.getD []).map fun kr =>
-            match kr.2 with
-            | some r => (kr.1, r)
-            | none => (kr.1, ((out.1.find? (fun p => p.1 == kr.1)).map (·.2)).getD (.ok .none))
-          let raised := results.filterMap fun kr => match kr.2 with | .error es => some es | .ok _ => none
-          if raised.isEmpty then
-            (.ok (.dict (results.filterMap fun kr => match kr.2 with | .ok v => some (kr.1, v) | .error _ => none)), out.2)
-          else (.error (.multi raised.flatten), out.2)
+        -- execute_fields: non-concurrent fields are awaited inline while the coroutines are created (a raise
+        -- propagates at once: the deferred ones are never started); concurrent ones are gathered afterwards
+        match serialSt one (defs.filter fun d => !d.2.2.parentConc) st with
+        | (.error es, st1) => (.error (.multi es), st1)
+        | (.ok kv1, st1) =>
+          let rs := mapSt one (defs.filter fun d => d.2.2.parentConc) st1
+          match gatherKV rs.1 with
+          | .error es => (.error (.multi es), rs.2)
+          | .ok kv2 => (.ok (.dict (orderBy defs (kv1 ++ kv2))), rs.2)
 
 /-! ### request level -/
 
